@@ -40,6 +40,7 @@ type conf struct {
 	// every later request at once; each caller issues a second call `gap` ms after its first one returned
 	lateBy int
 	gap    int
+	oneway bool // one-way calls: nothing is awaited, but whatever the outcome nothing may be left behind either
 }
 
 func scenario(c conf) *vm.Scenario {
@@ -78,6 +79,7 @@ func scenario(c conf) *vm.Scenario {
 			}
 		}
 		done := make(chan struct{}, c.callers)
+		nDone := 0
 		for i := 0; i < c.callers; i++ {
 			i := i
 			vm.GoNamed(fmt.Sprintf("caller%d", i), func() {
@@ -104,7 +106,19 @@ func scenario(c conf) *vm.Scenario {
 					}
 					var resp requestf.ResponsePacket
 					payload := []byte{0xA0 + byte(i), byte(i), byte(round)}
-					err := sps[i].TarsInvoke(ctx, 0, "echo", payload, nil, nil, &resp)
+					ct := byte(0)
+					if c.oneway {
+						ct = 1
+					}
+					err := sps[i].TarsInvoke(ctx, ct, "echo", payload, nil, nil, &resp)
+					if c.oneway && err == nil {
+						el := (vm.Now() - t0) / 1e6
+						vm.Log("caller %d ok after=%dms", i+10*round, el)
+						if cancel != nil {
+							cancel()
+						}
+						continue
+					}
 					if cancel != nil {
 						cancel()
 					}
@@ -127,12 +141,15 @@ func scenario(c conf) *vm.Scenario {
 						vm.Log("caller %d error after=%dms: %s", who, el, short(err.Error()))
 					}
 				}
+				nDone++
 				vm.Send(done, struct{}{})
 			})
 		}
-		for i := 0; i < c.callers; i++ {
-			vm.Recv(done)
-		}
+		// (a call that never returns must not hang the scenario: 15 s of virtual time is far beyond every bound)
+		expired := false
+		hz := vm.AddTimer(int64(15*time.Second), 0, func() { expired = true })
+		vm.Block("wait-callers", func() bool { return nDone == c.callers || expired })
+		hz.Stop()
 		// quiescence: longer than read timeout, sender poll and late replies
 		vm.Sleep(int64(3 * time.Second))
 		for k, p := range sps {
@@ -285,7 +302,7 @@ func check(c conf, r *vm.Result) string {
 				}
 				continue
 			}
-			if kind == "ok" && c.peer != "ok" {
+			if kind == "ok" && c.peer != "ok" && !c.oneway {
 				msgs = append(msgs, "call-succeeded-without-a-valid-reply:"+c.peer)
 			}
 			if kind != "ok" && c.peer == "ok" && !(c.objMax > 0 && strings.Contains(o, "invoke queue is full")) {
@@ -385,9 +402,18 @@ func main() {
 		add(conf{name: "own-proxies", peer: p, src: "config", callers: 2, timeout: 400, dialMs: 300, writeMs: 1000, ownProxies: true, stagger: 30}, 1, false)
 		add(conf{name: "own-proxies", peer: p, src: "ctx", callers: 3, timeout: 400, dialMs: 300, writeMs: 1000, ownProxies: true, stagger: 30}, 0, false)
 	}
+	// one-way calls against every peer: sent or failed, they return at once and leave nothing behind
+	for _, p := range []string{"ok", "silent", "close-on-accept", "refuse", "blackhole"} {
+		add(conf{name: "one-way", peer: p, src: "config", callers: 1, timeout: 400, dialMs: 300, writeMs: 1000, oneway: true}, 1, false)
+		add(conf{name: "one-way", peer: p, src: "ctx", callers: 3, timeout: 400, dialMs: 300, writeMs: 1000, oneway: true, stagger: 10}, 0, false)
+	}
+	add(conf{name: "one-way", peer: "blocked-writer", src: "config", callers: 4, timeout: 400, dialMs: 300, writeMs: 1000, queue: 1, oneway: true}, 0, false)
 	// writer blocked by a zero window, tiny queue: the enqueue timeout rules
 	add(conf{peer: "blocked-writer", src: "config", callers: 4, timeout: 400, dialMs: 300, writeMs: 1000, queue: 1}, 0, false)
 	add(conf{peer: "blocked-writer", src: "ctx", callers: 4, timeout: 400, dialMs: 300, writeMs: 1000, queue: 1, stagger: 10}, 1, false)
+	// all callers at the same instant, every schedule with one deviation (two callers between "is there room" and "put it in")
+	add(conf{name: "same-instant", peer: "blocked-writer", src: "config", callers: 4, timeout: 400, dialMs: 300, writeMs: 1000, queue: 1}, 1, false)
+	add(conf{name: "same-instant", peer: "blocked-writer", src: "config", callers: 5, timeout: 400, dialMs: 300, writeMs: 1000, queue: 2}, 1, false)
 	e1.Main(run, cases, []string{
 		"deadlines are judged on the virtual clock: a call must return within effective deadline (+ dial timeout when the dial itself hangs) + one time-wheel tick of the enqueue timeout",
 		"quiescence = 3 s of virtual time after the last caller returned",
